@@ -144,7 +144,7 @@ class Enc(Engine):
         # bad key lengths, operations without a context
         for kl in (0, 5, 15, 17, 33):
             yield Case(f'badkey{kl}', [f'init e {hx(rnd_bytes(rng, kl))} 0', 'upd 00 1', 'rel'])
-        n = 250 if tier == 'quick' else 1500
+        n = 150 if tier == 'quick' else 1500
         for i in range(n):
             k = rng.choice([1, 2, 3, 5, 9])
             lens = [rng.choice(self.SIZES) if rng.random() < 0.8 else rng.randrange(0, 6000) for _ in range(k)]
@@ -353,7 +353,7 @@ class Pass(Engine):
     name = 'pass'
 
     def gen(self, rng, tier):
-        n = 500 if tier == 'quick' else 3000
+        n = 400 if tier == 'quick' else 3000
         for i in range(n):
             ops = []
             tag = 0
@@ -538,7 +538,7 @@ class ZipEnc(Engine):
             rcb = f'r{rng.choice([300, 700])}x{hx(w1)},{hx(wp)}'
         elif mode == 'many-distinct':
             # hundreds of different wrong passphrases: some pass the 1-byte PKWARE check by accident
-            rcb = ','.join(hx(b'wrong-%d' % i) for i in range(rng.choice([400, 500]))) + ',' + hx(wp)
+            rcb = ','.join(hx(b'wrong-%d' % i) for i in range(320 if enc != 'zipcrypt' else rng.choice([400, 500]))) + ',' + hx(wp)
         wps = f'{by}:{hx(wp)}' if wp != b'<none>' else 'none'
         op = (f'rt enc={enc} comp={comp} sz={sz} body={body} wc={wc} wp={wps} rp={rp} rcb={rcb} '
               f'bs={bs} seek={seek} tamper={tamper}')
